@@ -2,7 +2,9 @@
 From Coq Require Import Reals QArith Qround Sorting.Permutation PrimFloat.
 From Flocq Require Import Raux.
 From EsVerif.Common Require Import Base.
-From EsVerif.C13 Require Import Model Spec Proofs CountProofs ModelR LogBinProofs FloatModel FloatProofs Exec ExecProofs C05Tie ExecTie.
+From EsVerif.C13 Require Import Model Spec Proofs CountProofs ModelR LogBinProofs FloatModel FloatProofs Exec ExecProofs C05Tie ExecTie
+  LoopModel LoopProofs RootProofs MoreModel MoreProofs BinTie.
+From EsVerif.C05 Require Spec.
 From EsVerif.C05 Require Model.
 
 (* ---- ids.  [root] and [choose] are the unmodelled floating-point choices of the JHU code; the
@@ -292,3 +294,125 @@ Qed.
 (* the log-bin hypotheses are satisfiable and the repaired defect is real: quotient -1/2 *)
 Example C13_cast_nonvacuous : radbin_cast (-1 # 2) = 0%Z /\ radbin (-1 # 2) = (-1)%Z /\ radbin (3 # 2) = 1%Z.
 Proof. vm_compute. repeat split; reflexivity. Qed.
+
+(* ================================================================================================= *)
+(* Theorems added in the proof-deepening round                                                        *)
+(* ================================================================================================= *)
+
+(* ---- the root loop of idByPoint accepts EVERY finite position (any finite gEpsilon >= 0): the first half of
+   [accepted] is no longer a hypothesis.  [eps_ok] / [finite_vb] are computable (evaluated in every lookup_id case). *)
+Theorem C13_concrete_root_total : forall eps v, eps_ok eps = true -> finite_vb v = true ->
+  (8 <= rootF eps v < 16)%Z.
+Proof. exact rootF_total_b. Qed.
+
+Theorem C13_concrete_accepted_from_dynamic : forall eps save v depth, eps_ok eps = true -> finite_vb v = true ->
+  (forall id, chooseF eps (buildlevel save (Z.of_nat depth)) id v <> None) -> accepted eps save v depth.
+Proof. exact accepted_from_dynamic_b. Qed.
+
+(* HTM(0), HTM(1), HTM(2) (every level is a stored level): ids in range for every finite position, no hypothesis left *)
+Theorem C13_stored_depths_unconditional : forall eps save v depth, eps_ok eps = true -> finite_vb v = true ->
+  (save = 0 \/ Z.of_nat depth <= save)%Z ->
+  (8 * 4 ^ Z.of_nat depth <= lookupF eps save depth v < 16 * 4 ^ Z.of_nat depth)%Z.
+Proof. exact stored_depth_unconditional_b. Qed.
+
+Example C13_root_total_nonvacuous :
+  eps_ok 0x1.203af9ee75616p-50%float = true
+  /\ finite_vb (mkvec 0x1.d9d033a6cb461p-1%float 0x1.4e2f2c0fa463bp-3%float 0x1.5e3a8748a0bf5p-2%float) = true
+  /\ finite_vb (mkvec (-0)%float 1%float (-0)%float) = true.
+Proof. vm_compute. repeat split; reflexivity. Qed.
+
+(* ---- the loop of cbincount with its mutable (scale, logscale) state: the cap searched for point i and the bin numbers of
+   its pairs are those of the scale of point i (per-point array), of the one scale (size-1 array) or of scale 1 (None) *)
+Theorem C13_cap_loop : forall (S L D P : Type) (one : S) (zeroL : L) (log10S : S -> L) (cap : bool -> S -> D)
+    (cover : P -> D -> list Z) (binof_s : bool -> S -> L -> P -> Z -> option Z) (dS : S)
+    (scales : option (list S)) (pt : Z -> P) nbin rev minid maxid n1,
+  cbincount_loop S L D P one zeroL log10S cap cover binof_s dS scales pt nbin rev minid maxid n1
+  = cbincount nbin rev minid maxid (binof_of S L P one zeroL log10S binof_s dS scales pt)
+              (map (cover_of S L D P one zeroL log10S cap cover dS scales pt) (zseq 0 n1)).
+Proof. exact loop_spec. Qed.
+
+Theorem C13_cap_loop_state : forall (S L : Type) (one : S) (zeroL : L) (log10S : S -> L) (dS : S) (scales : option (list S)) i,
+  (scales = None -> state_of S L one zeroL log10S dS scales i = (one, zeroL))
+  /\ (forall s, scales = Some [s] -> state_of S L one zeroL log10S dS scales i = (s, log10S s))
+  /\ (forall l, scales = Some l -> (1 < length l)%nat ->
+        state_of S L one zeroL log10S dS scales i = (nth (Z.to_nat i) l dS, log10S (nth (Z.to_nat i) l dS))).
+Proof. exact state_of_cases. Qed.
+
+(* a stale scale is visible: with per-point scales [2; 3] (toy types: S = L = D = Z, cap = the scale itself) the loop
+   searches cap 2 for point 0 and cap 3 for point 1 *)
+Example C13_cap_loop_nonvacuous :
+  let scales := Some [2; 3]%Z in
+  map (cover_of Z Z Z Z 1 0 (fun s => s) (fun _ s => s) (fun p d => [p; d]) 0 scales (fun i => 10 + i)) [0; 1]%Z
+  = [[10; 2]; [11; 3]]%Z
+  /\ cbincount_loop Z Z Z Z 1 0 (fun s => s) (fun _ s => s) (fun p d => [5]) (fun _ s _ _ i2 => Some (s - 2 + i2 - i2)) 0 scales
+       (fun i => 10 + i) 2 (fun i => zget [1; 2; 0]%Z i) 5 5 2 = [1; 1]%Z.
+Proof. vm_compute. split; reflexivity. Qed.
+
+(* ---- which calls are rejected, with which error class *)
+Theorem C13_lookup_rejections : forall n_ra n_dec,
+  (lookup_validate n_ra n_dec = Err EValue <-> n_ra <> n_dec) /\ (lookup_validate n_ra n_dec = Ok tt <-> n_ra = n_dec).
+Proof. exact lookup_rejects. Qed.
+
+Theorem C13_lookup_id_rejects_iff : forall (P : Type) (root : P -> Z) choose depth n_ra n_dec ps,
+  (exists l, lookup_id root choose depth n_ra n_dec ps = Ok l) <-> lookup_validate n_ra n_dec = Ok tt.
+Proof. intros P. exact (@lookup_id_agrees_with_validation P). Qed.
+
+Theorem C13_bincount_rejections : forall typo z,
+  bincount_validate typo z = Err EValue <->
+    (n_ra1 z <> n_dec1 z
+     \/ (typo = false /\ n_ra2 z <> n_dec2 z)
+     \/ (exists k, n_scale z = Some k /\ k <> 1 /\ k <> n_ra1 z)
+     \/ (exists k, n_htmid2 z = Some k /\ k <> n_ra2 z)
+     \/ (n_htmid2 z = None /\ n_ra2 z <> n_dec2 z))%nat.
+Proof. exact bincount_rejects. Qed.
+
+(* finding (not a violation of C13: invalid input): the as-found spelling `ra2.size != ra2.size` does not reject a second
+   list whose ra and dec differ in length when precomputed ids are supplied; without them the internal lookup_id does.
+   (A first version of this model claimed "never rejected"; the correspondence run on the real code refuted it.) *)
+Theorem C13_ra2_dec2_mismatch_not_rejected : forall n1 n2 n2', (n2 <> n2')%nat ->
+  bincount_validate true {| n_ra1 := n1; n_dec1 := n1; n_ra2 := n2; n_dec2 := n2'; n_scale := None; n_htmid2 := Some n2 |} = Ok tt
+  /\ bincount_validate true {| n_ra1 := n1; n_dec1 := n1; n_ra2 := n2; n_dec2 := n2'; n_scale := None; n_htmid2 := None |} = Err EValue
+  /\ bincount_validate false {| n_ra1 := n1; n_dec1 := n1; n_ra2 := n2; n_dec2 := n2'; n_scale := None; n_htmid2 := Some n2 |} = Err EValue.
+Proof. exact ra2_dec2_mismatch_not_rejected. Qed.
+
+(* ---- N-d coordinate arrays (fixes/C13/0003: `.ravel()`, C order): element (i, j) of the ids is the id of position (i, j) *)
+Theorem C13_lookup_id_2d : forall (P : Type) (root : P -> Z) choose depth (rows : list (list P)) ncols (dP : P),
+  (forall r, In r rows -> length r = ncols) ->
+  exists l, lookup_id_2d root choose depth rows = Ok l
+    /\ length l = (length rows * ncols)%nat
+    /\ forall i j, (i < length rows)%nat -> (j < ncols)%nat ->
+         nth (i * ncols + j) l 0%Z = lookup P root choose depth (nth j (nth i rows []) dP).
+Proof. intros P. exact (@lookup_id_2d_spec P). Qed.
+
+(* memory order of a Fortran-ordered array (what ravel(order='K') would give) is a different flattening *)
+Example C13_ravel_order_matters :
+  ravel_c [[1; 2]; [3; 4]]%Z = [1; 2; 3; 4]%Z /\ ravel_f 2 [[1; 2]; [3; 4]]%Z = [1; 3; 2; 4]%Z.
+Proof. split; reflexivity. Qed.
+
+(* ---- history: an HTM object is its depth; no call changes it, so the answers of any sequence of calls are the answers
+   of the same calls made alone *)
+Theorem C13_history_independent : forall (P C : Type) (root : P -> Z) (choose : nat -> Z -> P -> option Z)
+    (cover : nat -> C -> list Z * list Z) cs o,
+  run P C root choose cover o cs = (o, map (answer_of P C root choose cover o) cs).
+Proof. exact run_history_independent. Qed.
+
+(* ---- the checkers of the property are decision procedures (soundness was C13_checkers_sound) *)
+Theorem C13_checkers_decide :
+  (forall ids d, ids_check d ids = true <-> ids_ok d ids)
+  /\ (forall incl ss, covers_samples_b incl ss = true <-> covers_samples incl ss)
+  /\ (forall full ss, full_only_inside_b full ss = true <-> full_only_inside full ss).
+Proof. exact checkers_decide. Qed.
+
+(* ---- the identification used by C13_rev_layout_from_C05 is a theorem about C05's float model: for shifted ids below 2^53,
+   given to stat.histogram as float64 with min = 0.0 and bin size 1.0, C05.Model.binnum IS the integer difference *)
+Theorem C13_bin_number_of_integer_ids : forall (ids2 : list Z) (minid : Z) (x : list PrimFloat.float) (k : Z),
+  (0 <= zget ids2 k - minid < 2 ^ 53)%Z ->
+  C05.Model.fget x k = C05.Model.float_of_Z (zget ids2 k - minid) ->
+  C05.Model.binnum x 0%float 1%float k = bn ids2 minid k.
+Proof. exact bn_is_C05_binnum. Qed.
+
+Example C13_bin_number_nonvacuous :
+  let ids2 := [8796093022208; 8796093022215; 8796093022208]%Z in
+  let x := map (fun i => C05.Model.float_of_Z (i - 8796093022208)) ids2 in
+  map (C05.Model.binnum x 0%float 1%float) [0; 1; 2]%Z = [0; 7; 0]%Z /\ map (bn ids2 8796093022208) [0; 1; 2]%Z = [0; 7; 0]%Z.
+Proof. vm_compute. split; reflexivity. Qed.
